@@ -852,6 +852,8 @@ package queue
 //@   ensures [C04:nothing_removed] forall id string :: old(id in s.items) ==> id in s.items
 //@   ensures [C04:every_lease_id_accounted_for] result1 == nil && result0.Succeeded + len(result0.Conflicts) == len(leaseIDs)
 //@   ensures [C04:only_named_live_leases_settle_expired_ones_are_released] let now := storeNow :: forall id string :: id in s.items ==> let e := s.items[id] :: same(e) || (old(e.State == StateLeased) && idSelected(leaseIDs, old(e.LeaseID)) && ((old(expiredAt(e, now)) && released(e, now)) || (!old(expiredAt(e, now)) && e.State == StateQueued && e.LeaseID == "" && e.LeaseUntil == 0 && e.NextRunAt == now + max(delay, 0) && e.DeadReason == "" && e.Attempt == old(e.Attempt) && immutableSame(e))))
+//@   ensures [C05:a_batch_nack_never_offers_a_live_leased_message_before_now_plus_delay] let now := storeNow :: forall id string :: id in s.items && !same(s.items[id]) && !old(expiredAt(s.items[id], now)) ==> s.items[id].NextRunAt == now + max(delay, 0)
+//@   ensures [C03:a_batch_nack_releases_only_messages_leased_under_a_named_lease] forall id string :: id in s.items && !same(s.items[id]) ==> old(s.items[id].State == StateLeased) && idSelected(leaseIDs, old(s.items[id].LeaseID))
 //@   ensures [C02:no_creation] forall id string :: id in s.items ==> old(id in s.items) && s.items[id] == old(s.items[id])
 //@   ensures [C04:other_leases_untouched] forall l string :: (l in s.leases ==> old(l in s.leases) && s.leases[l] == old(s.leases[l])) && (old(l in s.leases) && !(l in s.leases) ==> idSelected(leaseIDs, l))
 
